@@ -225,6 +225,15 @@ def cases(tier, seed):
             out.append({"stream": "pd-dst-zones", "fn": "pd", "args": [a, b]})
     except Exception:  # noqa
         pass
+    # ---- the same instant written in two zones (often on different local dates)
+    for _ in range(200):
+        off = rnd.choice(OFFSETS[:14])
+        ymd = _rand_date(rnd, 2, 9998)
+        t = _rand_time(rnd)
+        a = _mk("dt", ymd, t, ["utc"])
+        f = fields_of(wall_us(a) + off * 10**6)
+        b = _mk("dt", f[:3], f[3:], rnd.choice([["pfixed", off], ["fixed", off]]))
+        out.append({"stream": "pd-equal-instants", "fn": "pd", "args": [a, b]})
     # ---- subclass operands passed directly, mixed kinds
     for _ in range(300):
         tz = rnd.choice([None, ["putc"], ["pfixed", 3600]])
@@ -662,6 +671,10 @@ def known(c, backend, r):
         return "rs-second-operand-subclass"
     if fn == "iv" and tag == "float-part" and abs(_elapsed(c)) >= TWO33:
         return "interval-float-seconds"
+    if (fn == "pd" and backend == "rs" and tag == "rs-eq-py" and c["args"][0][0] == "dt" and c["args"][0][8] is not None
+            and instant_us(c["args"][0]) == instant_us(c["args"][1]) and c["args"][0][1:4] != c["args"][1][1:4]
+            and r[1:8] == r[17:24] == [0] * 7):
+        return "rs-equal-instants-total-days"
     if fn in ("pd", "iv") and backend == "rs" and tag in ("rs-eq-py", "ranges", "rebuild", "rebuild-impl", "negation") and _rs_shift_irregular(c):
         return "rs-cross-zone-shift"
     if fn in ("pd", "iv") and tag in ("rebuild", "rebuild-impl"):
